@@ -989,3 +989,25 @@ Theorem gen_q_check_dependency_small legs lighting : (length legs < 3)%nat -> py
 Proof. intros H. unfold py_Q_check_dependency_one_leg. rewrite (gen_q_get_one_vertices_rejects legs H). reflexivity. Qed.
 Print Assumptions gen_q_check_dependency_closed.
 Print Assumptions gen_q_check_dependency_small.
+
+(* ... and why the `break` of _gen_one_legs is harmless on the graphs the pipeline keeps: when no leg is empty and the legs behind the centre are
+   ordered by length (gen_q_append_sorted, gen_q_remove_sorted), the run of single legs the generator yields is ALL the single legs of the graph *)
+Lemma filter_ones_none (r : list (list pstr)) : Forall (fun y => (2 <= length y)%nat) r -> filter (fun x => (length x =? 1)%nat) r = [].
+Proof. induction 1 as [|y r Hy _ IH]; [reflexivity|]. cbn [filter]. assert (E : (length y =? 1)%nat = false) by lia. rewrite E. exact IH. Qed.
+Theorem gen_q_one_legs_all c rest : Forall (fun leg : list pstr => leg <> []) rest -> SortedLegs (c :: rest) ->
+  take_ones rest = filter (fun x => (length x =? 1)%nat) rest.
+Proof.
+  unfold SortedLegs. cbn [tl]. induction rest as [|x r IH]; intros HN HS; [reflexivity|].
+  inversion HN as [|? ? Hx Hr]; subst. unfold lens in HS. cbn [map] in HS. inversion HS as [|? ? HS' HF]; subst.
+  cbn [take_ones filter]. destruct (length x =? 1)%nat eqn:E; [f_equal; exact (IH Hr HS')|].
+  symmetry. apply filter_ones_none. rewrite Forall_forall. intros y Hy. rewrite Forall_forall in HF.
+  assert (H1 : (length x <= length y)%nat) by (apply HF; apply in_map; exact Hy).
+  destruct x as [|a x]; [congruence|]. cbn [length] in *. lia.
+Qed.
+Theorem gen_q_get_center c0 l rest : py_Q_get_center ((c0 :: l) :: rest) = FRet c0.
+Proof. reflexivity. Qed.
+Theorem gen_q_get_center_empty : py_Q_get_center [] = FNone.
+Proof. reflexivity. Qed.
+Print Assumptions gen_q_one_legs_all.
+Print Assumptions gen_q_get_center.
+Print Assumptions gen_q_get_center_empty.
